@@ -8,11 +8,15 @@
    Tie: harness/py/props/c14.py runs the real prelude in node, the real encodeString and compiled
    programs (vs native Go) and the model on the same inputs.
 
-   Not modelled (list facts on the shared representation, checked only through compiled
-   programs against native Go): len, concatenation, comparison, map keys, switch. *)
+   Phase 4: len, +, the six comparisons, s[i], s[i:j], []byte/[]rune/string conversions, string(int64),
+   map[string] access and the string switch are modelled AS EMITTED (Model/C14_Ops.v: a deep embedding of
+   the emitted JavaScript templates with an evaluator over the helper models); the templates are
+   regenerated from the compiler's real output on every run (Gen/C14_Templates.v) and proved equal to the
+   hand-written T_* below by conversion (C14_templates_as_emitted). *)
 From Coq Require Import List NArith ZArith Bool Arith.
 From Verif Require Import Model.C14_Utf8 Model.C14_Literal.
 From Verif Require Import Proofs.C14_Decode Proofs.C14_Encode Proofs.C14_Strings Proofs.C14_Literal.
+From Verif Require Import Model.C14_Ops Gen.C14_Templates Proofs.C14_P4_Ops Proofs.C14_P4_Tie.
 Import ListNotations.
 Local Open Scope N_scope.
 
@@ -215,3 +219,223 @@ Proof.
   exists [0x41; 0xE9; 0x20AC; 0x1F600]%Z. split; [|reflexivity].
   repeat constructor.
 Qed.
+
+(* ============================================================================================
+   Phase 4 — the string operators as the compiler emits them
+   ============================================================================================ *)
+
+(* ---- tie: what the compiler / prelude of the tree under test emit today ------------------- *)
+
+(* every template regenerated from the real compiler's output of the table program equals the hand-written
+   template the theorems below are about (also for named string / byte-slice types) *)
+Theorem C14_templates_as_emitted :
+  t_Add = T_Add /\ t_Eql = T_Eql /\ t_Neq = T_Neq /\ t_Lss = T_Lss /\ t_Leq = T_Leq /\ t_Gtr = T_Gtr /\ t_Geq = T_Geq /\
+  t_Len = T_Len /\ t_Idx = T_Idx /\ t_Sl2 = T_Sl2 /\ t_SlLo = T_SlLo /\ t_SlHi = T_SlHi /\
+  t_ToBytes = T_ToBytes /\ t_FromBytes = T_FromBytes /\ t_ToRunes = T_ToRunes /\ t_FromRunes = T_FromRunes /\
+  t_FromRune = T_FromRune /\ t_FromI64 = T_FromI64 /\ t_MapGet = T_MapGet /\
+  t_MyAdd = T_Add /\ t_MyLss = T_Lss /\ t_MyEql = T_Eql /\ t_MyLen = T_Len /\ t_MyToBytes = T_ToBytes /\ t_MyFromBytes = T_FromBytes.
+Proof. exact templates_as_emitted. Qed.
+Print Assumptions C14_templates_as_emitted.
+
+Theorem C14_key_prefix_as_in_prelude : forall s, STRING_KEY_PREFIX ++ s = key_for s.
+Proof. exact key_prefix_as_in_prelude. Qed.
+Print Assumptions C14_key_prefix_as_in_prelude.
+
+Theorem C14_chunk_as_in_prelude : B2S_CHUNK = 10000 /\ N.to_nat B2S_CHUNK = CHUNK.
+Proof. exact chunk_as_in_prelude. Qed.
+Print Assumptions C14_chunk_as_in_prelude.
+
+Theorem C14_switch_as_emitted : SWITCH_EMITTED = SWITCH_SOURCE.
+Proof. exact switch_as_emitted. Qed.
+Print Assumptions C14_switch_as_emitted.
+
+(* ---- len, + ---------------------------------------------------------------------------------- *)
+
+(* len(s) = x.length = the number of bytes, for every string *)
+Theorem C14_len_spec : forall s, run T_Len [VStr s] = Ok (VNum (Z.of_nat (length s))).
+Proof. exact len_spec. Qed.
+Print Assumptions C14_len_spec.
+
+(* a + b is the byte concatenation, len(a + b) = len(a) + len(b), and the result is again a Go string *)
+Theorem C14_concat_spec : forall a b,
+  run T_Add [VStr a; VStr b] = Ok (VStr (a ++ b)) /\
+  run T_Len [VStr (a ++ b)] = Ok (VNum (Z.of_nat (length a) + Z.of_nat (length b))) /\
+  (is_bytes a = true -> is_bytes b = true -> is_bytes (a ++ b) = true).
+Proof. exact concat_spec. Qed.
+Print Assumptions C14_concat_spec.
+
+Theorem C14_concat_assoc_unit : forall a b c,
+  run T_Add [VStr (a ++ b); VStr c] = run T_Add [VStr a; VStr (b ++ c)] /\
+  run T_Add [VStr []; VStr a] = Ok (VStr a) /\ run T_Add [VStr a; VStr []] = Ok (VStr a).
+Proof. exact concat_assoc_unit. Qed.
+Print Assumptions C14_concat_assoc_unit.
+
+(* ---- comparison ------------------------------------------------------------------------------ *)
+
+(* ECMAScript's IsLessThan on two strings (prefix tests, then the first differing code unit) is Go's
+   lexical byte-wise order, for EVERY pair of code-unit lists *)
+Theorem C14_js_compare_is_lexicographic : forall a b, js_str_lt a b = true <-> bytes_lt a b.
+Proof. exact js_str_lt_iff. Qed.
+Print Assumptions C14_js_compare_is_lexicographic.
+
+(* all six operators as emitted (=== , !(===), <, <=, >, >=) against the Go meaning, and each always
+   evaluates to a boolean *)
+Theorem C14_compare_iff_bytes_compare : forall a b,
+  (holds T_Eql a b <-> a = b) /\ (holds T_Neq a b <-> a <> b) /\
+  (holds T_Lss a b <-> bytes_lt a b) /\ (holds T_Leq a b <-> bytes_lt a b \/ a = b) /\
+  (holds T_Gtr a b <-> bytes_lt b a) /\ (holds T_Geq a b <-> bytes_lt b a \/ b = a) /\
+  (forall t, In t [T_Eql; T_Neq; T_Lss; T_Leq; T_Gtr; T_Geq] -> holds t a b \/ fails t a b).
+Proof. exact compare_iff_bytes_compare. Qed.
+Print Assumptions C14_compare_iff_bytes_compare.
+
+(* the order is a strict total order on byte strings *)
+Theorem C14_bytes_lt_strict_total_order :
+  (forall a, ~ bytes_lt a a) /\ (forall a b c, bytes_lt a b -> bytes_lt b c -> bytes_lt a c) /\
+  (forall a b, bytes_lt a b \/ a = b \/ bytes_lt b a) /\ (forall a b, bytes_lt a b -> ~ bytes_lt b a).
+Proof. exact bytes_lt_strict_total_order. Qed.
+Print Assumptions C14_bytes_lt_strict_total_order.
+
+(* ---- indexing and slicing through the emitted templates --------------------------------------- *)
+
+Theorem C14_index_template_spec : forall s i, run T_Idx [VStr s; VNum i] = idx_res (spec_index s i).
+Proof. exact idx_spec. Qed.
+Print Assumptions C14_index_template_spec.
+
+Theorem C14_index_of_concat : forall a b i, (0 <= i)%Z ->
+  run T_Idx [VStr (a ++ b); VNum i] =
+  if (i <? Z.of_nat (length a))%Z then run T_Idx [VStr a; VNum i] else run T_Idx [VStr b; VNum (i - Z.of_nat (length a))].
+Proof. exact idx_of_concat. Qed.
+Print Assumptions C14_index_of_concat.
+
+Theorem C14_slice_template_spec : forall s lo hi, run T_Sl2 [VStr s; VNum lo; VNum hi] = sub_res (spec_slice s lo hi).
+Proof. exact sl2_spec. Qed.
+Print Assumptions C14_slice_template_spec.
+
+Theorem C14_slice_low_template_spec : forall s lo, run T_SlLo [VStr s; VNum lo] = sub_res (spec_slice s lo (Z.of_nat (length s))).
+Proof. exact sllo_spec. Qed.
+Print Assumptions C14_slice_low_template_spec.
+
+Theorem C14_slice_high_template_spec : forall s hi, run T_SlHi [VStr s; VNum hi] = sub_res (spec_slice s 0 hi).
+Proof. exact slhi_spec. Qed.
+Print Assumptions C14_slice_high_template_spec.
+
+(* (a + b)[:len(a)] = a, (a + b)[len(a):] = b, (a + b)[0:len(a)] = a *)
+Theorem C14_slice_of_concat : forall a b,
+  run T_SlHi [VStr (a ++ b); VNum (Z.of_nat (length a))] = Ok (VStr a) /\
+  run T_SlLo [VStr (a ++ b); VNum (Z.of_nat (length a))] = Ok (VStr b) /\
+  run T_Sl2 [VStr (a ++ b); VNum 0; VNum (Z.of_nat (length a))] = Ok (VStr a).
+Proof. exact slice_of_concat. Qed.
+Print Assumptions C14_slice_of_concat.
+
+(* s[:i] + s[i:j] + s[j:] = s with the right lengths, for every 0 <= i <= j <= len(s) *)
+Theorem C14_concat_of_slices : forall s i j, (0 <= i <= j)%Z -> (j <= Z.of_nat (length s))%Z ->
+  exists p m q,
+    run T_SlHi [VStr s; VNum i] = Ok (VStr p) /\ run T_Sl2 [VStr s; VNum i; VNum j] = Ok (VStr m) /\
+    run T_SlLo [VStr s; VNum j] = Ok (VStr q) /\
+    p ++ m ++ q = s /\ Z.of_nat (length p) = i /\ Z.of_nat (length m) = (j - i)%Z.
+Proof. exact concat_of_slices. Qed.
+Print Assumptions C14_concat_of_slices.
+
+Theorem C14_slice_left_of_concat : forall a b lo hi, (0 <= lo <= hi)%Z -> (hi <= Z.of_nat (length a))%Z ->
+  run T_Sl2 [VStr (a ++ b); VNum lo; VNum hi] = run T_Sl2 [VStr a; VNum lo; VNum hi].
+Proof. exact slice_left_of_concat. Qed.
+Print Assumptions C14_slice_left_of_concat.
+
+(* ---- conversions through the emitted templates -------------------------------------------------- *)
+
+(* string(b) for EVERY byte slice (any backing array, offset, length, capacity; any number of 10000-element
+   chunks) is exactly b's window, is a Go string of length len(b), and []byte of it is a fresh slice with
+   offset 0 and length = capacity = len(b) holding those bytes *)
+Theorem C14_bytes_conv_roundtrip : forall arr off len cap, is_bytes arr = true -> (off + len <= length arr)%nat ->
+  run T_FromBytes [VBytes arr off len cap] = Ok (VStr (window arr off len)) /\
+  is_bytes (window arr off len) = true /\
+  run T_Len [VStr (window arr off len)] = Ok (VNum (Z.of_nat len)) /\
+  run T_ToBytes [VStr (window arr off len)] = Ok (VBytes (window arr off len) 0 len len).
+Proof. exact bytes_conv_roundtrip. Qed.
+Print Assumptions C14_bytes_conv_roundtrip.
+
+Theorem C14_string_conv_roundtrip : forall s, is_bytes s = true ->
+  run T_ToBytes [VStr s] = Ok (VBytes s 0 (length s) (length s)) /\
+  run T_FromBytes [VBytes s 0 (length s) (length s)] = Ok (VStr s).
+Proof. exact string_conv_roundtrip. Qed.
+Print Assumptions C14_string_conv_roundtrip.
+
+Theorem C14_bytes_to_string_chunk_indep : forall k arr off len, (0 < k)%nat ->
+  bytes_to_string_k k arr off len = bytes_to_string arr off len.
+Proof. exact bytes_to_string_chunk_indep. Qed.
+Print Assumptions C14_bytes_to_string_chunk_indep.
+
+Theorem C14_runes_templates : forall s rs off len cap r hi lo,
+  run T_ToRunes [VStr s] =
+    Ok (VRunes (map Z.of_N (string_to_runes s)) 0 (length (string_to_runes s)) (length (string_to_runes s))) /\
+  run T_FromRunes [VRunes rs off len cap] = Ok (VStr (runes_to_string rs off len)) /\
+  run T_FromRune [VNum r] = Ok (VStr (spec_string_of_rune r)) /\
+  run T_FromI64 [VI64 hi lo] = Ok (VStr (encode_rune (if (hi =? 0)%Z then lo else (-1)%Z))).
+Proof. exact runes_templates. Qed.
+Print Assumptions C14_runes_templates.
+
+(* string(x) for EVERY integer x given as the (high, low) pair of the 64-bit representation *)
+Theorem C14_string_of_int64_template : forall x,
+  run T_FromI64 [VI64 (x / 4294967296) (x mod 4294967296)] = Ok (VStr (spec_string_of_rune x)).
+Proof. exact from_i64_spec. Qed.
+Print Assumptions C14_string_of_int64_template.
+
+(* every string-producing template gives a well-formed representation (all code units < 256) again *)
+Theorem C14_results_wellformed :
+  (forall a b, is_bytes a = true -> is_bytes b = true -> exists r, run T_Add [VStr a; VStr b] = Ok (VStr r) /\ is_bytes r = true) /\
+  (forall s lo hi r, is_bytes s = true -> run T_Sl2 [VStr s; VNum lo; VNum hi] = Ok (VStr r) -> is_bytes r = true) /\
+  (forall s lo r, is_bytes s = true -> run T_SlLo [VStr s; VNum lo] = Ok (VStr r) -> is_bytes r = true) /\
+  (forall s hi r, is_bytes s = true -> run T_SlHi [VStr s; VNum hi] = Ok (VStr r) -> is_bytes r = true) /\
+  (forall arr off len cap, is_bytes arr = true -> exists r, run T_FromBytes [VBytes arr off len cap] = Ok (VStr r) /\ is_bytes r = true) /\
+  (forall rs off len cap, exists r, run T_FromRunes [VRunes rs off len cap] = Ok (VStr r) /\ is_bytes r = true) /\
+  (forall x, exists r, run T_FromRune [VNum x] = Ok (VStr r) /\ is_bytes r = true) /\
+  (forall hi lo, exists r, run T_FromI64 [VI64 hi lo] = Ok (VStr r) /\ is_bytes r = true) /\
+  (forall s, exists arr n, run T_ToBytes [VStr s] = Ok (VBytes arr 0 n n) /\ is_bytes arr = true /\ n = length s /\ length arr = n) /\
+  (forall s, is_bytes s = true -> is_bytes (key_for s) = true).
+Proof. exact results_wellformed. Qed.
+Print Assumptions C14_results_wellformed.
+
+(* ---- map keys and switch ------------------------------------------------------------------------- *)
+
+Theorem C14_key_injective : forall a b, key_for a = key_for b -> a = b.
+Proof. exact key_injective. Qed.
+Print Assumptions C14_key_injective.
+
+(* after m[k] = v, m[k'] is (v, true) exactly when k' has the bytes of k, and is unchanged otherwise *)
+Theorem C14_map_get_set : forall m k v k',
+  go_map_get2 (go_map_set m k v) k' = if units_eqb k k' then (v, true) else go_map_get2 m k'.
+Proof. exact go_map_get_set. Qed.
+Print Assumptions C14_map_get_set.
+
+Theorem C14_units_eqb_eq : forall a b, units_eqb a b = true <-> a = b.
+Proof. exact units_eqb_eq. Qed.
+Print Assumptions C14_units_eqb_eq.
+
+(* the emitted m[k] expression reads the same value *)
+Theorem C14_map_get_template : forall m k, run T_MapGet [VMap m; VStr k] = Ok (VNum (fst (go_map_get2 m k))).
+Proof. exact map_get_template. Qed.
+Print Assumptions C14_map_get_template.
+
+(* the emitted if / else-if chain enters the FIRST clause that lists the tag's bytes ... *)
+Theorem C14_switch_first_match : forall tag cls i j, switch_emitted tag cls i = Some j ->
+  exists n cl, j = (i + n)%nat /\ nth_error cls n = Some cl /\ In tag cl /\
+               forall n' cl', (n' < n)%nat -> nth_error cls n' = Some cl' -> ~ In tag cl'.
+Proof. exact switch_some. Qed.
+Print Assumptions C14_switch_first_match.
+
+(* ... and falls through to the default only when no clause lists them *)
+Theorem C14_switch_no_match : forall tag cls i, switch_emitted tag cls i = None -> forall cl, In cl cls -> ~ In tag cl.
+Proof. exact switch_none. Qed.
+Print Assumptions C14_switch_no_match.
+
+(* non-vacuity: invalid UTF-8, NUL and '$' in operands; a prefix is smaller; FF sorts after every ASCII byte
+   (UTF-16 code-unit order = byte order); the key of "$a" differs from the key of "a" *)
+Example C14_p4_nonvacuous :
+  holds T_Lss [0x61] [0x61; 0] /\ holds T_Lss [0x7A; 0x7A] [0xFF] /\ fails T_Lss [0xC3; 0xA9] [0xC3; 0xA9] /\
+  holds T_Geq [0xFF] [0xC3; 0xA9] /\ holds T_Neq [0x24; 0x61] [0x61] /\
+  run T_Idx [VStr [0x61; 0xFF]; VNum 2] = Panic MSG_INDEX /\ run T_Idx [VStr [0x61; 0xFF]; VNum 1] = Ok (VNum 255) /\
+  run T_Sl2 [VStr [0x61; 0xFF; 0x62]; VNum 1; VNum 4] = Panic MSG_SLICE /\
+  run T_FromBytes [VBytes [1; 2; 3; 4; 5] 1 3 4] = Ok (VStr [2; 3; 4]) /\
+  go_map_get2 (go_map_set (go_map_set [] [0x61] 1) [0x24; 0x61] 2) [0x61] = (1%Z, true) /\
+  switch_emitted [0x62; 0xFF] SWITCH_EMITTED 0 = Some 1%nat /\ switch_emitted [0x7A] SWITCH_EMITTED 0 = None.
+Proof. vm_compute. repeat split; reflexivity. Qed.
